@@ -14,7 +14,28 @@ def base(method, t0, tf, dt, **kw):
     sc = {"method": method, "dtype": "float64", "problem": "osc", "y0": [1.0, 0.0], "t0": t0, "tf": tf, "dt": dt,
           "dense": False, "rtol": None, "atol": None, "ops": [{"op": "integrate"}]}
     sc.update(kw)
+    if sc.get("rtol") is not None:
+        # bound the work: a scenario is meant to take hundreds of steps, not tens of thousands (measured on osc/rat over a span of 2:
+        # AHE 404 steps at 1e-5 but 40425 at 1e-9; rich(BackwardEuler,3) 630 at 1e-5, 69846 at 1e-11; LobattoIIIC4/RadauIIA5 ~1200 at 1e-9,
+        # ~6000 at 1e-11).  A run that exceeds the monitor's event budget is reported as non-terminating, so the budget must stay far
+        # above what the unchanged library legitimately needs.
+        fl = tol_floor(method)
+        if sc["rtol"] < fl:
+            k = fl / sc["rtol"]
+            sc["rtol"] = fl
+            if sc.get("atol") is not None:
+                sc["atol"] = sc["atol"] * k
     return sc
+
+
+def tol_floor(method):
+    if isinstance(method, dict):
+        return 1e-5 if method["rich"] in ("BackwardEuler", "Euler", "EulerSolver") else 1e-12
+    if method in ("AHE", "Adaptive Heun-Euler", "HeunEulerSolver"):
+        return 1e-5
+    if method in ADIMP:
+        return 1e-9
+    return 1e-12
 
 
 def tol_for(method):
